@@ -1,4 +1,4 @@
-import Proofs.Integrity
+import Proofs.Damage
 /-!
 # C03 — the integrity check is sound
 
@@ -27,6 +27,43 @@ theorem C03_unmarshal_sound (m m' : Msg) (d : Bytes) (ht : framingTagsOK m) (h :
   | ok u => exact C03_sound m d ht hv
   | err => simp [hv] at h
   | panic => simp [hv] at h
+
+/-- **any single-byte substitution is rejected**: if `X ++ a :: Y` is integrity-correct (as every message
+    produced by the serializer is) then the same string with any other byte `b` at that position — anywhere:
+    framing fields, body, CheckSum digits, delimiters — is not accepted -/
+theorem C03_substitution_rejected (m : Msg) (X Y : Bytes) (a b : UInt8) (ht : framingTagsOK m) (hab : a ≠ b)
+    (hvalid : integrityOK m.bsTag m.blTag m.csTag (X ++ a :: Y) = true) :
+    validateRaw m (X ++ b :: Y) = .err := by
+  cases h : validateRaw m (X ++ b :: Y) with
+  | err => rfl
+  | panic => exact absurd h (validateRaw_ne_panic _ _)
+  | ok u =>
+    have := C03_sound m _ ht h
+    exact absurd (no_single_substitution _ _ _ X Y a b hvalid this) hab
+
+/-- **any truncation is rejected**: no proper prefix of an integrity-correct string is accepted -/
+theorem C03_truncation_rejected (m : Msg) (d r : Bytes) (ht : framingTagsOK m) (hr : r ≠ [])
+    (hvalid : integrityOK m.bsTag m.blTag m.csTag (d ++ r) = true) :
+    validateRaw m d = .err := by
+  cases h : validateRaw m d with
+  | err => rfl
+  | panic => exact absurd h (validateRaw_ne_panic _ _)
+  | ok u =>
+    have := C03_sound m _ ht h
+    exact absurd (no_truncation _ _ _ d r hvalid this) hr
+
+/-- … and therefore by the decoder -/
+theorem C03_unmarshal_rejects (m : Msg) (X Y : Bytes) (a b : UInt8) (ht : framingTagsOK m) (hab : a ≠ b)
+    (hvalid : integrityOK m.bsTag m.blTag m.csTag (X ++ a :: Y) = true) :
+    m.unmarshal (X ++ b :: Y) = .err := by
+  unfold Msg.unmarshal
+  rw [C03_substitution_rejected m X Y a b ht hab hvalid]
+  rfl
+
+/-- insertion and deletion are *not* always detectable: a NUL byte inside the BeginString value changes neither
+    the byte sum nor the counted length (known finding F-C03-nul-beginstring; inherent to the statement) -/
+example : integrityOK [56] [57] [49, 48] [56,61,70,1, 57,61,53,1, 51,53,61,48,1, 49,48,61,48,54,50,1] = true
+    ∧ integrityOK [56] [57] [49, 48] [56,61,70,0,1, 57,61,53,1, 51,53,61,48,1, 49,48,61,48,54,50,1] = true := by decide
 
 /-- non-vacuity: `8=F|9=5|35=0|10=062|` is accepted by the model's `validateRaw` -/
 example : validateRaw (Msg.new [56] [57] [49, 48] [51, 53] [70] [48] [] [] [])
